@@ -389,6 +389,7 @@ def assemble(unit_dir, mode='verify'):
                 raise Undecided(f"fn {c.path}: pinned text changed (now {fn['hash']}); the assumed contract no longer applies")
             fn['inlined'] = r['rewrites'].get('R23.inline_helper_needs_proof_aid', 0)   # straight-line read-only helpers are inlined exactly
             fn['anchors_lost'] = len(r.get('missing_anchors', []))
+            fn['loop_kinds'] = list(r.get('loop_kinds') or [])
             fn['first_line'] = len(g.lines) + 1
             retname = c.opts.get('ret', 'r')
             if r['impl_header']:
